@@ -9,7 +9,7 @@ Second part of the model of pyyeti/nastran/op4.py for C04 (core Lean only):
 2. the **true domain of `struct.pack('i', …)`**: every integer of a header / column record must fit a signed
    32-bit integer, otherwise `struct.error` (ndarray input: Python / int64 arithmetic), or — sparse input, dense
    layout only — the record length is computed in *numpy int32 scalar arithmetic* (scipy's COO indices are
-   int32) and wraps silently (`spRecLen`, finding F45);
+   int32) and wraps silently (`spRecLen`, finding F49);
 3. what the reader's `sparse=True` result *is* as a matrix: `coo_matrix((V, (I, J))).toarray()` (`cooToDense`).
 
 Library code is modelled by what it computes, not how:
